@@ -18,6 +18,8 @@
 EXTENDS LRU, TLC, Json
 
 CONSTANTS Keys, Caps, MaxLen, Conc,
+          Canon,       \* TRUE: only histories that introduce the keys in the order 1, 2, 3, ... (one representative of every
+                       \* class of histories that differ by a renaming of keys; the runner renames them again at random)
           NilPuts      \* FALSE leaves Put(k, nil) out (simulation of the default capacity: the cache must fill up)
 VARIABLES hist,     \* Conc=FALSE: sequence of calls with their results; Conc=TRUE: sequence of Call/Ret events
           lin       \* Conc=TRUE: the order in which calls were linearised, as <<t, n>>
@@ -35,6 +37,7 @@ SeqStep == /\ ~Conc
            /\ Len(hist) < MaxLen
            /\ \E o \in OpsAt(Len(hist) + 1) :
                 LET r == DoRes(q, o) IN
+                /\ Canon => o.k <= Max({0} \cup {hist[j].k : j \in 1..Len(hist)}) + 1
                 /\ Do(CHOOSE t \in Threads : TRUE, o, r)
                 /\ hist' = Append(hist, [op |-> o.op, k |-> o.k, v |-> o.v, ok |-> r.ok, rv |-> r.v])
            /\ UNCHANGED lin
